@@ -199,7 +199,11 @@ def run_real(sc, variant=None):
             rec["not_closed"] = net.wait_client_closed(3.0)
             rec["fired"] = list(net.fired)
             rec["pipes"] = [{"id": p.id, "target": p.target, "events": list(p.events), "tls": len(p.tls), "sent": len(p.sent), "written": len(p.written),
-                             "reset": p.was_reset, "fault": p.fault_fired} for p in net.pipes]
+                             "reset": p.was_reset, "fault": p.fault_fired,
+                             "tls_records": [{"sni": t["server_hostname"], "alpn": t["alpn"], "selected": t["selected"]} for t in p.tls],
+                             "exchanges": [{"host": _host_of(ex), "tls_depth": ex.get("tls_depth"), "token": ex.get("token")} for ex in _exchanges(p)
+                                           if not ex.get("proxy_hop") and ex.get("method") != b"CONNECT"]}
+                            for p in net.pipes]
             rec["harness_errors"] = list(net.errors)
             rec["attempts"] = net.connect_attempts
         gc.collect()
@@ -209,6 +213,21 @@ def run_real(sc, variant=None):
                        and not (type(getattr(w, "source", None)).__name__ == "SSLSocket" and not hasattr(w.source, "_connected"))]
     rec["outs"], rec["times"], rec["scheme"] = outs, times, scheme
     return rec
+
+
+def _exchanges(p):
+    try:
+        leaf = p.peer.leaf()
+        return leaf.all_exchanges() if hasattr(leaf, "all_exchanges") else []
+    except Exception:  # pragma: no cover
+        return []
+
+
+def _host_of(ex):
+    for n, v in ex.get("headers") or []:
+        if bytes(n).lower() in (b"host", b":authority"):
+            return bytes(v).decode("latin-1").rsplit(":", 1)[0] if b":" in bytes(v) else bytes(v).decode("latin-1")
+    return None
 
 
 ALLOWED = {
@@ -239,7 +258,7 @@ def truth(sc, req):
 def judge(sc, rec):
     """-> {prop: [violations]}, tags, fired"""
     kind = sc["kind"]
-    v = {"C02": [], "C06": [], "C15": [], "C16": []}
+    v = {"C02": [], "C06": [], "C15": [], "C16": [], "C10": []}
     f = sc.get("fault") or {}
     fk = f.get("kind")
     fired = bool(rec["fired"]) or (fk == "untrusted" and kind in TLS_KINDS)
@@ -307,6 +326,25 @@ def judge(sc, rec):
         unanswered = fk != "stall" or any(p["fault"] and p["sent"] < _needed(sc, rec, p) for p in rec["pipes"])
         if fk != "stall":
             v["C16"].append(V("C16", "timeout-not-applied", f"{what}: the peer never completed the {fk.split('-')[0]} step, yet every request succeeded", **base))
+    # ---- what actually went over the wire in the ClientHello of the origin hop (C10): server name, ALPN offer, TLS iff https
+    pool_cfg0, _, scheme0 = topo(kind)
+    proxy_hop_tls = 1 if "https-proxy" in kind else 0
+    for p in rec["pipes"]:
+        origin_tls = p["tls_records"][proxy_hop_tls:]
+        hosts = {ex["host"] for ex in p["exchanges"] if ex["host"] and not ex["host"].startswith("proxy.")}
+        for t in origin_tls:
+            if t["sni"] not in ("a.test", "b.test") or (hosts and t["sni"] not in hosts):
+                v["C10"].append(V("C10", "sni", f"{what}: the ClientHello for the origin on connection {p['id']} carries server name {t['sni']!r}; the requests on it "
+                                  f"are for {sorted(hosts) or ['a.test / b.test']}", mode="real", **base))
+            want_h2 = bool(pool_cfg0.get("http2"))
+            if ("h2" in (t["alpn"] or [])) != want_h2 or "http/1.1" not in (t["alpn"] or []) and pool_cfg0.get("http1", True):
+                v["C10"].append(V("C10", "alpn-offer", f"{what}: the ClientHello for the origin on connection {p['id']} offers ALPN {t['alpn']} with http2={want_h2}", mode="real", **base))
+        for ex in p["exchanges"]:
+            if ex["host"] and ex["host"].startswith("proxy."):
+                continue
+            want_depth = proxy_hop_tls + (1 if scheme0 == "https" else 0)
+            if ex["tls_depth"] is not None and ex["tls_depth"] != want_depth and not (scheme0 == "http" and "forward" in kind and ex["tls_depth"] == proxy_hop_tls):
+                v["C10"].append(V("C10", "tls-per-scheme", f"{what}: request {ex['token']} ({scheme0}) travelled under {ex['tls_depth']} TLS layer(s), expected {want_depth}", mode="real", **base))
     # ---- ledger
     if rec["not_closed"]:
         tg = [p["target"] for p in rec["pipes"] if p["id"] in rec["not_closed"]]
@@ -556,7 +594,9 @@ def stall_matrix(tier):
 def layer_for(prop_id, budget):
     from ..prop import Layer
 
-    if prop_id == "C02":
+    if prop_id == "C10":
+        strat = lambda: real_scenarios(with_faults=False, kinds=TLS_KINDS)  # noqa: E731
+    elif prop_id == "C02":
         strat = lambda: real_scenarios(only=("truncate",), fault_share=4)  # noqa: E731
     elif prop_id == "C16":
         strat = lambda: real_scenarios(only=("stall", "tls-stall", "connect-stall", "read-stall"), fault_share=9)  # noqa: E731
